@@ -216,6 +216,12 @@ class Report:
                 self.pid, len(uniq), {k: v for k, v in self.clauses.items() if v[1]}))
             return 1
         tot = sum(v[0] for v in self.clauses.values())
+        if tot == 0:
+            # vacuity guard: nothing this property speaks about was ever observed (e.g. every generator run failed
+            # before a file existed); that is neither "held" nor a violation of THIS property
+            print('MACHINERY-FAILURE property=%s vacuous run: no clause of this property was evaluated '
+                  '(the implementation never reached the point the property speaks about; see the diagnostic clauses in the evidence file)' % self.pid)
+            return 2
         print('%s: held on everything explored (%d clause evaluations, %d TLC states, %d behaviours bound to the implementation, %.1fs)'
               % (self.pid, tot, self.states, self.traces, wall))
         return 0
